@@ -39,7 +39,7 @@ struct Obs {
     state: Vec<u8>,
 }
 
-trait H: Digest + Clone + Default {
+trait H: Digest + digest::FixedOutput + digest::Reset + digest::Update + digest::DynDigest + Clone + Default + 'static {
     const BS: usize;
     const LAZY: bool;
     fn obs(&self) -> Obs;
@@ -175,8 +175,8 @@ fn differs_behaviourally<T: H>(a: &T, b: &T) -> Option<usize> {
     let bs = T::BS;
     for &n in &[0usize, 1, bs - 1, bs, bs + 1, 2 * bs + 3] {
         let probe: Vec<u8> = (0..n).map(|i| (i as u8).wrapping_mul(13).wrapping_add(5)).collect();
-        let da = a.clone().chain(&probe).finalize().to_vec();
-        let db = b.clone().chain(&probe).finalize().to_vec();
+        let da = Digest::finalize(Digest::chain(a.clone(), &probe)).to_vec();
+        let db = Digest::finalize(Digest::chain(b.clone(), &probe)).to_vec();
         if da != db {
             return Some(n);
         }
@@ -219,7 +219,12 @@ fn run_history<T: H>(name: &str, ops: &[Op]) -> Ran {
                 Op::Update(k, data) => {
                     touched = *k;
                     if let Some(Some(x)) = tbl.get_mut(*k) {
-                        Digest::update(x, data);
+                        // the same operation through each of the traits that offer it
+                        match (opi + *k) % 3 {
+                            0 => Digest::update(x, data),
+                            1 => digest::Update::update(x, data),
+                            _ => digest::DynDigest::update(x as &mut dyn digest::DynDigest, data),
+                        }
                         absorbed[*k].as_mut().unwrap().extend_from_slice(data);
                         pieces[*k].push(opi);
                     }
@@ -244,7 +249,11 @@ fn run_history<T: H>(name: &str, ops: &[Op]) -> Ran {
                 Op::Reset(k) => {
                     touched = *k;
                     if let Some(Some(x)) = tbl.get_mut(*k) {
-                        Digest::reset(x);
+                        match (opi + *k) % 3 {
+                            0 => Digest::reset(x),
+                            1 => digest::Reset::reset(x),
+                            _ => digest::DynDigest::reset(x as &mut dyn digest::DynDigest),
+                        }
                         absorbed[*k] = Some(vec![]);
                         pieces[*k].clear();
                         if !same_obs(&x.obs(), &fresh) {
@@ -258,7 +267,19 @@ fn run_history<T: H>(name: &str, ops: &[Op]) -> Ran {
                 Op::FinalizeReset(k) => {
                     touched = *k;
                     if let Some(Some(x)) = tbl.get_mut(*k) {
-                        let d = x.finalize_reset().to_vec();
+                        // Digest::finalize_reset finalises a clone; the FixedOutput / DynDigest forms
+                        // finalise in place and then reset
+                        let d = match (opi + *k) % 4 {
+                            0 => Digest::finalize_reset(x).to_vec(),
+                            1 => digest::FixedOutput::finalize_fixed_reset(x).to_vec(),
+                            2 => {
+                                let mut out = digest::generic_array::GenericArray::<u8, <T as digest::FixedOutput>::OutputSize>::default();
+                                out.iter_mut().for_each(|b| *b = 0xaa);
+                                digest::FixedOutput::finalize_into_reset(x, &mut out);
+                                out.to_vec()
+                            }
+                            _ => digest::DynDigest::finalize_reset(x as &mut dyn digest::DynDigest).to_vec(),
+                        };
                         let msg = absorbed[*k].replace(vec![]).unwrap();
                         let one = check_digest(*k, opi, &d, &msg, &mut failures);
                         outs.push((*k, d, one, std::mem::take(&mut pieces[*k])));
@@ -274,7 +295,16 @@ fn run_history<T: H>(name: &str, ops: &[Op]) -> Ran {
                     touched = *k;
                     if *k < tbl.len() {
                         if let Some(x) = tbl[*k].take() {
-                            let d = x.finalize().to_vec();
+                            let d = match (opi + *k) % 3 {
+                                0 => Digest::finalize(x).to_vec(),
+                                1 => digest::FixedOutput::finalize_fixed(x).to_vec(),
+                                _ => {
+                                    let mut out = digest::generic_array::GenericArray::<u8, <T as digest::FixedOutput>::OutputSize>::default();
+                                    out.iter_mut().for_each(|b| *b = 0x55);
+                                    digest::FixedOutput::finalize_into(x, &mut out);
+                                    out.to_vec()
+                                }
+                            };
                             let msg = absorbed[*k].take().unwrap();
                             let one = check_digest(*k, opi, &d, &msg, &mut failures);
                             outs.push((*k, d, one, std::mem::take(&mut pieces[*k])));
